@@ -13,15 +13,33 @@ import (
 type Layout struct {
 	Level int
 	R     *rand.Rand
+	wide  bool // one separator of this text is a very long run of blanks (a data line longer than 64 KiB)
 }
 
 // NewLayout returns a layout; level 0 = canonical, 1 = comments and spacing, 2 = also line breaks
 // inside clauses, several clauses per line, CRLF, tabs.
 func NewLayout(level int, seed int64) *Layout {
-	return &Layout{Level: level, R: rand.New(rand.NewSource(seed))}
+	l := &Layout{Level: level, R: rand.New(rand.NewSource(seed))}
+	l.wide = level > 0 && l.R.Intn(30) == 0
+	return l
 }
 
 func (l *Layout) coin(p float64) bool { return l.Level > 0 && l.R.Float64() < p }
+
+// comment returns a comment line body. Comments are free text of any length: now and then one is longer
+// than the buffers readers usually work with (4 KiB, 64 KiB), and it is made of what looks like data.
+func (l *Layout) comment(short, filler string) string {
+	if l.Level == 0 {
+		return short
+	}
+	switch x := l.R.Intn(40); {
+	case x == 0:
+		return short + " " + strings.Repeat(filler, (66000+l.R.Intn(30000))/len(filler))
+	case x <= 2:
+		return short + " " + strings.Repeat(filler, (4000+l.R.Intn(5000))/len(filler))
+	}
+	return short
+}
 
 func (l *Layout) sp() string {
 	if l.Level == 0 {
@@ -52,7 +70,7 @@ func (l *Layout) nl() string {
 func DIMACS(n int, clauses [][]int, l *Layout) string {
 	var b strings.Builder
 	if l.coin(0.5) {
-		b.WriteString("c generated problem" + l.nl())
+		b.WriteString(l.comment("c generated problem", "1 -2 0 ") + l.nl())
 	}
 	b.WriteString(fmt.Sprintf("p%scnf%s%d%s%d", l.sp(), l.sp(), n, l.sp(), len(clauses)))
 	if l.coin(0.2) {
@@ -62,7 +80,7 @@ func DIMACS(n int, clauses [][]int, l *Layout) string {
 	lineStart := true
 	for i, c := range clauses {
 		if lineStart && l.coin(0.15) {
-			b.WriteString("c a comment 1 2 0" + l.nl())
+			b.WriteString(l.comment("c a comment 1 2 0", "-1 2 0 ") + l.nl())
 		}
 		if l.coin(0.1) {
 			b.WriteString(l.sp())
@@ -124,6 +142,10 @@ func (l *Layout) spNoTab() string {
 	if l.Level == 0 {
 		return " "
 	}
+	if l.wide && l.R.Intn(5) == 0 {
+		l.wide = false
+		return strings.Repeat(" ", 66000+l.R.Intn(9000))
+	}
 	if l.R.Intn(4) == 0 {
 		return "  "
 	}
@@ -143,7 +165,7 @@ func OPB(n int, hasObj bool, objTerms []Term, cons []Lin, l *Layout) string {
 	var b strings.Builder
 	b.WriteString(fmt.Sprintf("* #variable= %d #constraint= %d\n", n, len(cons)))
 	if l.coin(0.4) {
-		b.WriteString("* a comment line ;\n")
+		b.WriteString(l.comment("* a comment line ;", "+1 x1 >= 1 ; ") + "\n")
 	}
 	if hasObj {
 		b.WriteString("min:")
@@ -154,7 +176,7 @@ func OPB(n int, hasObj bool, objTerms []Term, cons []Lin, l *Layout) string {
 	}
 	for _, c := range cons {
 		if l.coin(0.15) {
-			b.WriteString("* another comment\n")
+			b.WriteString(l.comment("* another comment", "-1 x1 >= 0 ; ") + "\n")
 		}
 		for i, t := range c.Terms {
 			if i > 0 {
@@ -184,7 +206,7 @@ type WClause struct {
 func WCNF(n int, top int, clauses []WClause, l *Layout) string {
 	var b strings.Builder
 	if l.coin(0.5) {
-		b.WriteString("c generated wcnf\n")
+		b.WriteString(l.comment("c generated wcnf", "3 1 0 ") + "\n")
 	}
 	if top > 0 {
 		b.WriteString(fmt.Sprintf("p wcnf %d %d %d\n", n, len(clauses), top))
@@ -193,7 +215,7 @@ func WCNF(n int, top int, clauses []WClause, l *Layout) string {
 	}
 	for _, c := range clauses {
 		if l.coin(0.15) {
-			b.WriteString("c comment 3 1 0\n")
+			b.WriteString(l.comment("c comment 3 1 0", "2 -1 0 ") + "\n")
 		}
 		w := c.Weight
 		if c.Hard {
